@@ -36,6 +36,16 @@ def comp(r):
 
 
 def h(t, part):
+    import asyncio as real_asyncio
+    try:
+        return h_inner(t, part)
+    except real_asyncio.CancelledError as e:
+        # the server let the handler's CancelledError through to engine.io (which would end the connection's task)
+        return Fail('residue:cancellation-escaped', 'a handler coroutine that ended in CancelledError took the server\'s '
+                    'own processing with it: %r' % (e,))
+
+
+def h_inner(t, part):
     asyncio_ = part['async']
     fault_at = t.int(-1, 3)           # which handler invocation raises (-1: none)
     inv = {'n': 0, 'raised': None, 'armed': False}
@@ -47,10 +57,17 @@ def h(t, part):
         inv['n'] += 1
         if fault_at == k:
             inv['raised'] = kind
+            if part.get('fault') == 'cancelled':
+                import asyncio as real_asyncio
+                raise real_asyncio.CancelledError()
             raise Boom(kind)
 
-    def mk(kind, ret=None):
-        if asyncio_:
+    def mk(kind, ret=None, legacy=False):
+        if asyncio_ and legacy:
+            async def f(sid):                 # legacy disconnect handler: no reason argument
+                maybe_raise(kind)
+                return ret
+        elif asyncio_:
             async def f(sid, *a):
                 maybe_raise(kind)
                 return ret
@@ -69,7 +86,7 @@ def h(t, part):
         for ns in ('/', '/a'):
             w.s.on('connect', mk('connect'), namespace=ns)
             w.s.on('ev', mk('event', 5), namespace=ns)
-            w.s.on('disconnect', mk('disconnect'), namespace=ns)
+            w.s.on('disconnect', mk('disconnect', legacy=bool(part.get('legacy'))), namespace=ns)
         w.s.on('connect', mk('connect', False), namespace='/r')
         fresh = worlds.server_state(w.s)
         # the bystander
@@ -176,6 +193,9 @@ def parts(tier):
     # the same lives on a host of a pub/sub cluster (the claim is made for the host that owns the client)
     out += [{'async': a, 'always_connect': ac, 'n': n - 1, 'first': f, 'manager': 'pubsub'}
             for a in (False, True) for ac in (False, True) for f in range(len(OPS))]
+    # asyncio: the handler coroutine ends in CancelledError (a BaseException); handlers with the legacy signature
+    out += [{'async': True, 'always_connect': False, 'n': n - 1, 'first': f, 'fault': 'cancelled', 'legacy': lg}
+            for lg in (False, True) for f in range(len(OPS))]
     return out
 
 
@@ -187,12 +207,12 @@ META = dict(
                 'server/manager container is inspected for the transport id and all session ids it ever had, and '
                 'after the bystander leaves the whole state must equal that of the freshly built server.',
     bounds={'quick': '3 operations from %r on one transport (namespaces /, /a, refusing /r) + transport loss; at most '
-                     'one raising handler invocation among the first 4 (symbolic index); always_connect in {F,T}; a '
+                     'one raising handler invocation among the first 4 (symbolic index); always_connect in {F,T}; asyncio also with handlers ending in CancelledError and legacy one-argument disconnect handlers (2 operations); a '
                      'bystander in a room on /' % (OPS,),
             'thorough': 'same with 4 operations'},
     outside=['heap-size measurement (the memory clause is claimed as state equality with a fresh server)',
              'pub/sub managers beyond lives of n-1 operations on the owning host', 'async_handlers=True (background handlers; the cleanup path is the same)'],
     stubs=['engine.io server -> FakeEio/FakeAEio (contains exceptions of the three callbacks like engineio/server.py:445-471)',
            'JSON text -> TokJson', 'asyncio -> vf.miniloop (FIFO)'],
-    assumptions=['a raising handler raises an Exception subclass', 'at most one handler invocation raises per life'],
+    assumptions=['a raising handler raises an Exception subclass or (asyncio, coroutine handlers) asyncio.CancelledError', 'at most one handler invocation raises per life'],
 )
